@@ -266,48 +266,34 @@ Proof.
   destruct (level_def a l); [reflexivity|apply IH].
 Qed.
 
-(* getConstraints: provided the top-level role's own list names no attribute twice, the result
-   names no attribute twice and reads as "nearest definition", for every depth *)
+(* getConstraints (repaired C05-e): for every depth and every list, the result names no attribute
+   twice and reads as "nearest definition" *)
 Lemma get_constraints_nearest levels :
-  levels <> [] ->
-  NoDup (attrs_of (last levels [])) ->
   NoDup (attrs_of (get_constraints levels)) /\
   forall a, lookup_c a (get_constraints levels) = nearest a levels.
 Proof.
-  induction levels as [|l r IH]; intros Hne Htop; [congruence|].
-  destruct r as [|l2 r2].
-  - cbn in *. split; [exact Htop|]. intro a. rewrite (nodup_lookup_level_def _ _ Htop).
-    destruct (level_def a l); reflexivity.
-  - assert (Hne2 : l2 :: r2 <> []) by discriminate.
-    change (last (l :: l2 :: r2) []) with (last (l2 :: r2) []) in Htop.
-    destruct (IH Hne2 Htop) as [IH1 IH2].
-    change (get_constraints (l :: l2 :: r2)) with (merge_parent l (get_constraints (l2 :: r2))).
-    split.
-    + apply merge_parent_nodup. exact IH1.
-    + intro a. rewrite merge_parent_lookup, IH2. reflexivity.
+  induction levels as [|l r [IH1 IH2]]; cbn [get_constraints nearest].
+  - split; [constructor|reflexivity].
+  - split; [apply merge_parent_nodup; exact IH1|].
+    intro a. rewrite merge_parent_lookup, IH2. reflexivity.
 Qed.
 
 Lemma get_constraints_in levels x :
   In x (get_constraints levels) -> exists l, In l levels /\ In x l.
 Proof.
-  induction levels as [|l r IH]; intro H; [destruct H|].
-  destruct r as [|l2 r2].
-  - exists l. split; [left; reflexivity|exact H].
-  - change (get_constraints (l :: l2 :: r2)) with (merge_parent l (get_constraints (l2 :: r2))) in H.
-    destruct (merge_parent_in _ _ _ H) as [H1|H1].
-    + exists l. split; [left; reflexivity|exact H1].
-    + destruct (IH H1) as [l' [A B]]. exists l'. split; [right; exact A|exact B].
+  induction levels as [|l r IH]; cbn [get_constraints]; intro H; [destruct H|].
+  destruct (merge_parent_in _ _ _ H) as [H1|H1].
+  - exists l. split; [left; reflexivity|exact H1].
+  - destruct (IH H1) as [l' [A B]]. exists l'. split; [right; exact A|exact B].
 Qed.
 
 (* BuildDescriptorConstraints *)
 Lemma desc_constraints_nearest levels k :
-  levels <> [] ->
-  NoDup (attrs_of (last levels [])) ->
   match k with Some kc => NoDup (attrs_of kc) | None => True end ->
   NoDup (attrs_of (desc_constraints levels k)) /\
   forall a, lookup_c a (desc_constraints levels k) = nearest a (all_levels levels k).
 Proof.
-  intros Hne Htop Hk. destruct (get_constraints_nearest levels Hne Htop) as [G1 G2].
+  intros Hk. destruct (get_constraints_nearest levels) as [G1 G2].
   destruct k as [kc|]; cbn [desc_constraints all_levels].
   - split.
     + apply merge_parent_nodup. exact Hk.
@@ -338,10 +324,67 @@ Proof.
   - intro H. destruct (IH H) as [c' [A B]]. exists c'. auto.
 Qed.
 
+Lemma level_def_in a l v :
+  level_def a l = Some v -> exists c, In c l /\ c_attr c = a /\ c_val c = v.
+Proof.
+  induction l as [|c r IH]; cbn; [discriminate|].
+  destruct (level_def a r) as [w|] eqn:E.
+  - intro H. inversion H; subst w. destruct (IH eq_refl) as [c' [A B]]. exists c'. auto.
+  - destruct (str_eqb (c_attr c) a) eqn:E2; [|discriminate].
+    intro H. inversion H; subst. apply str_eqb_spec in E2. exists c. auto.
+Qed.
+
 Lemma sat1_ext a c c' : c_attr c = c_attr c' -> c_val c = c_val c' -> sat1 a c = sat1 a c'.
 Proof. intros E1 E2. unfold sat1. rewrite E1, E2. reflexivity. Qed.
 
-(* the counterexample to unconditional "nearest wins": the top-level role names zone twice *)
+(* entries of the parent whose attribute the child does not name survive the merge *)
+Lemma replace_first_keeps c l m x :
+  replace_first c l = Some m -> In x l -> c_attr x <> c_attr c -> In x m.
+Proof.
+  revert m. induction l as [|p r IH]; cbn; intros m H Hin Hne; [destruct Hin|].
+  destruct (str_eqb (c_attr c) (c_attr p)) eqn:E.
+  - inversion H; subst m. apply str_eqb_spec in E. destruct Hin as [Hin|Hin].
+    + subst p. congruence.
+    + right. exact Hin.
+  - destruct (replace_first c r) as [r'|] eqn:R; [|discriminate]. inversion H; subst m.
+    destruct Hin as [Hin|Hin]; [left; exact Hin|right; apply (IH r' eq_refl Hin Hne)].
+Qed.
+
+Lemma merge_one_keeps l c x : In x l -> c_attr x <> c_attr c -> In x (merge_one l c).
+Proof.
+  intros Hin Hne. unfold merge_one. destruct (replace_first c l) as [m|] eqn:R.
+  - apply (replace_first_keeps _ _ _ _ R Hin Hne).
+  - apply in_or_app. left. exact Hin.
+Qed.
+
+Lemma merge_parent_keeps own : forall parent x,
+  In x parent -> ~ In (c_attr x) (attrs_of own) -> In x (merge_parent own parent).
+Proof.
+  unfold merge_parent. induction own as [|c r IH]; intros parent x Hin Hn; cbn [fold_left]; [exact Hin|].
+  apply IH.
+  - apply merge_one_keeps; [exact Hin|]. intro E. apply Hn. left. symmetry. exact E.
+  - intro H. apply Hn. right. exact H.
+Qed.
+
+(* whatever the class list looks like: the nearest definition of every attribute is an entry of
+   the merged list *)
+Lemma desc_constraints_has_nearest levels k a v :
+  nearest a (all_levels levels k) = Some v ->
+  exists c, In c (desc_constraints levels k) /\ c_attr c = a /\ c_val c = v.
+Proof.
+  destruct (get_constraints_nearest levels) as [G1 G2].
+  destruct k as [kc|]; cbn [desc_constraints all_levels]; intro H.
+  - rewrite nearest_app in H. destruct (nearest a levels) as [w|] eqn:En.
+    + inversion H; subst w. apply lookup_c_in. rewrite merge_parent_lookup.
+      rewrite <- (nodup_lookup_level_def _ _ G1), G2, En. reflexivity.
+    + cbn in H. destruct (level_def a kc) as [w|] eqn:Ek; [|discriminate]. inversion H; subst w.
+      destruct (level_def_in _ _ _ Ek) as [c [Hc [Ea Ev]]]. exists c. split; [|auto].
+      apply merge_parent_keeps; [exact Hc|]. rewrite Ea. apply lookup_c_none. rewrite G2. exact En.
+  - apply lookup_c_in. rewrite G2. exact H.
+Qed.
+
+(* the reading "first entry" still differs from "nearest" when the class list itself names an
+   attribute twice (both entries are kept, so the task is only more constrained) *)
 Definition w_zone : str := [122;111;110;101].
 Definition w_z1 : str := [122;49].
 Definition w_z2 : str := [122;50].
@@ -349,8 +392,9 @@ Definition w_z3 : str := [122;51].
 Definition w_levels : list (list cstr) :=
   [[mkC w_zone w_z3 0]; [mkC w_zone w_z1 0; mkC w_zone w_z2 0]].
 
-Lemma merge_nearest_counterexample :
-  lookup_c w_zone (desc_constraints w_levels (Some [])) = Some w_z2 /\
+(* the old witness of C05-e: the top-level role names zone twice; the nearer z3 now wins *)
+Lemma merge_nearest_regression :
+  lookup_c w_zone (desc_constraints w_levels (Some [])) = Some w_z3 /\
   nearest w_zone (all_levels w_levels (Some [])) = Some w_z3.
 Proof. vm_compute. split; reflexivity. Qed.
 
@@ -708,6 +752,50 @@ Proof. unfold memN. apply existsb_app. Qed.
 Lemma pmem_none p : pmem p None = false.
 Proof. reflexivity. Qed.
 
+(* ---- Resources.Subtract on the ports resource ---- *)
+Lemma valid_ranges_Forall rs : valid_ranges rs = true <-> Forall rvalid rs.
+Proof.
+  unfold valid_ranges. rewrite forallb_forall, Forall_forall. split; intros H r Hr.
+  - apply N.leb_le. apply (H r Hr).
+  - apply N.leb_le. apply (H r Hr).
+Qed.
+
+Lemma fold_rremove_spec : forall rs a, canonp a -> Forall rvalid rs ->
+  canonp (fold_left (fun a r => rremove a (fst r) (snd r)) rs a) /\
+  forall p, inr p (fold_left (fun a r => rremove a (fst r) (snd r)) rs a) = inr p a && negb (inr p rs).
+Proof.
+  induction rs as [|r rs IH]; intros a Ha Hv; cbn [fold_left].
+  - split; [exact Ha|]. intro p. cbn. rewrite andb_true_r. reflexivity.
+  - inversion Hv as [|x xs Hr Hrs]; subst.
+    destruct (rremove_spec a (fst r) (snd r) Hr Ha) as [C M].
+    destruct (IH _ C Hrs) as [C2 M2]. split; [exact C2|].
+    intro p. rewrite M2, M, inr_cons, negb_orb, andb_assoc. reflexivity.
+Qed.
+
+Lemma subtract_ranges_spec pr rs :
+  pvalid pr ->
+  pvalid (subtract_ranges pr rs) /\
+  (forall p, pmem p (subtract_ranges pr rs) = true -> pmem p pr = true) /\
+  (Forall rvalid rs -> forall p, pmem p (subtract_ranges pr rs) = pmem p pr && negb (inr p rs)).
+Proof.
+  destruct pr as [raw|]; cbn [subtract_ranges pvalid]; intro Hv.
+  2:{ split; [exact I|]. split; [auto|]. intros _ p. reflexivity. }
+  destruct rs as [|r0 rs0].
+  { split; [exact Hv|]. split; [auto|]. intros _ p. cbn. rewrite andb_true_r. reflexivity. }
+  destruct (valid_ranges (r0 :: rs0)) eqn:Ev.
+  - apply valid_ranges_Forall in Ev. destruct (renorm_spec raw Hv) as [A B].
+    destruct (fold_rremove_spec (r0 :: rs0) (renorm raw) A Ev) as [C M].
+    assert (Heq : forall p, inr p (fold_left (fun a r => rremove a (fst r) (snd r)) (r0 :: rs0) (renorm raw))
+                            = inr p raw && negb (inr p (r0 :: rs0))).
+    { intro p. rewrite M, B. reflexivity. }
+    destruct (fold_left (fun a r => rremove a (fst r) (snd r)) (r0 :: rs0) (renorm raw)) as [|x xs] eqn:EF.
+    + split; [exact I|]. split; [intros p H; discriminate|]. intros _ p. cbn [pmem]. rewrite <- Heq. reflexivity.
+    + split; [cbn [pvalid]; apply canonp_valid; exact C|]. split.
+      * intros p H. cbn [pmem] in *. rewrite Heq in H. apply andb_true_iff in H. apply H.
+      * intros _ p. cbn [pmem]. apply Heq.
+  - split; [exact Hv|]. split; [auto|]. intros Hf. apply valid_ranges_Forall in Hf. congruence.
+Qed.
+
 Lemma alloc_dyn_spec : forall chans pr pr' dyn,
   pvalid pr -> alloc_dyn chans pr = AOk pr' dyn ->
   pvalid pr' /\
@@ -722,7 +810,7 @@ Proof.
   - cbn [filter]. destruct (ch_tcp c) eqn:Et.
     + destruct (ports_of pr) as [av|] eqn:Ep; [|discriminate].
       destruct (rmin (rremove av 0 data_port_floor)) as [q|] eqn:Eq; [|discriminate].
-      destruct (alloc_dyn r (subtract_port pr q)) as [pr2 dyn2| |] eqn:Ea; try discriminate.
+      destruct (alloc_dyn r (subtract_port pr q)) as [pr2 dyn2|pr2] eqn:Ea; try discriminate.
       inversion H; subst pr' dyn. clear H.
       destruct (ports_of_spec pr av Hv Ep) as [Cav Mav].
       destruct (rremove_spec av 0 data_port_floor (N.le_0_l _) Cav) as [Cr Mr].
@@ -746,6 +834,24 @@ Proof.
     + apply (IH _ _ _ Hv H).
 Qed.
 
+(* giving up leaves a well-formed remainder that is part of what was there *)
+Lemma alloc_dyn_fail : forall chans pr pr',
+  pvalid pr -> alloc_dyn chans pr = AFail pr' ->
+  pvalid pr' /\ forall p, pmem p pr' = true -> pmem p pr = true.
+Proof.
+  induction chans as [|c r IH]; intros pr pr' Hv H; cbn [alloc_dyn] in H; [discriminate|].
+  destruct (ch_tcp c).
+  - destruct (ports_of pr) as [av|] eqn:Ep.
+    + destruct (rmin (rremove av 0 data_port_floor)) as [q|] eqn:Eq.
+      * destruct (alloc_dyn r (subtract_port pr q)) as [pr2 dyn2|pr2] eqn:Ea; [discriminate|].
+        inversion H; subst pr2. destruct (subtract_port_spec pr q Hv) as [Vs Ms].
+        destruct (IH _ _ Vs Ea) as [V M]. split; [exact V|].
+        intros p Hp. specialize (M p Hp). rewrite Ms in M. apply andb_true_iff in M. apply M.
+      * inversion H; subst. auto.
+    + inversion H; subst. auto.
+  - apply (IH _ _ Hv H).
+Qed.
+
 Lemma inr_spans p l : inr p (map span1 l) = memN p l.
 Proof.
   induction l as [|q r IH]; [reflexivity|].
@@ -755,13 +861,14 @@ Qed.
 Lemma spans_valid l : Forall rvalid (map span1 l).
 Proof. induction l; constructor; [apply N.le_refl|assumption]. Qed.
 
-(* everything a successfully built task guarantees, relative to the ports that were still free *)
-Definition built (exec : N * N) (o : offer) (d : desc) (k : klass) (chans : list chan)
-           (pr pr' : portres) (t : task) : Prop :=
+(* everything a successfully built task guarantees about the ports, relative to what was left *)
+Definition built (k : klass) (pr pr' : portres) (t : task) : Prop :=
   pvalid pr' /\
-  (forall p, pmem p pr' = pmem p pr && negb (memN p (picked t))) /\
+  (forall p, pmem p pr' = true -> pmem p pr = true /\ ~ In p (picked t)) /\
+  (Forall rvalid (k_static k) -> forall p, pmem p pr' = true -> inr p (k_static k) = false) /\
   NoDup (picked t) /\
   (forall p, In p (picked t) -> pmem p pr = true) /\
+  (Forall rvalid (k_static k) -> forall p, In p (picked t) -> inr p (k_static k) = false) /\
   (forall p, In p (map snd (t_dyn t)) -> data_port_floor < p) /\
   control_port_floor < t_ctl t.
 
@@ -781,64 +888,100 @@ Proof.
   - cbn [filter]. destruct (ch_tcp c) eqn:Et.
     + destruct (ports_of pr) as [av|] eqn:Ep; [|discriminate].
       destruct (rmin (rremove av 0 data_port_floor)) as [q|] eqn:Eq; [|discriminate].
-      destruct (alloc_dyn r (subtract_port pr q)) as [pr2 dyn2| |] eqn:Ea; try discriminate.
+      destruct (alloc_dyn r (subtract_port pr q)) as [pr2 dyn2|pr2] eqn:Ea; try discriminate.
       inversion H; subst pr' dyn. cbn [map fst]. f_equal. apply (IH _ _ _ Ea).
     + apply (IH _ _ _ H).
 Qed.
 
-Lemma make_task_shape exec o d k chans pr pr' t :
-  make_task exec o d k chans pr = MkOk pr' t -> shaped exec o d k chans t /\
-  exists pr1, alloc_dyn chans pr = AOk pr1 (t_dyn t) /\
+Lemma make_task_shape exec o d k chans pr cpu mem pr' cpu' mem' t :
+  make_task exec o d k chans pr cpu mem = MkOk pr' cpu' mem' t -> shaped exec o d k chans t /\
+  cpu' = subtract_scalar cpu (t_cpu t) /\ mem' = subtract_scalar mem (t_mem t) /\
+  exists pr1, alloc_dyn chans (subtract_ranges pr (canon (k_static k))) = AOk pr1 (t_dyn t) /\
     exists av, ports_of pr1 = Some av /\ rmin (rremove av 0 control_port_floor) = Some (t_ctl t) /\
-    pr' = subtract_port pr1 (t_ctl t).
+    pr' = subtract_ranges (subtract_port pr1 (t_ctl t)) (t_req t).
 Proof.
   unfold make_task. intro H.
-  destruct (alloc_dyn chans pr) as [pr1 dyn| |] eqn:Ea; try discriminate.
+  destruct (alloc_dyn chans (subtract_ranges pr (canon (k_static k)))) as [pr1 dyn|pr1] eqn:Ea; try discriminate.
   destruct (ports_of pr1) as [av|] eqn:Ep; [|discriminate].
   destruct (rmin (rremove av 0 control_port_floor)) as [cp|] eqn:Ec; [|discriminate].
-  inversion H; subst pr' t. clear H.
+  inversion H; subst pr' cpu' mem' t. clear H.
   split.
   - unfold shaped, picked. cbn [t_dyn t_ctl t_desc t_handed t_req t_cpu t_mem t_reuse].
     split; [reflexivity|]. split; [apply (alloc_dyn_names _ _ _ _ Ea)|].
     split; [reflexivity|]. split; [rewrite map_app, map_map; reflexivity|].
     repeat split; reflexivity.
-  - cbn [t_dyn t_ctl]. exists pr1. split; [reflexivity|]. exists av. repeat split; assumption.
+  - cbn [t_dyn t_ctl t_cpu t_mem t_req]. split; [reflexivity|]. split; [reflexivity|].
+    exists pr1. split; [reflexivity|]. exists av. repeat split; assumption.
 Qed.
 
-Lemma make_task_built exec o d k chans pr pr' t :
-  pvalid pr -> make_task exec o d k chans pr = MkOk pr' t -> built exec o d k chans pr pr' t.
+Lemma static_removed pr st :
+  pvalid pr -> Forall rvalid st ->
+  forall p, pmem p (subtract_ranges pr (canon st)) = pmem p pr && negb (inr p st).
 Proof.
-  intros Hv H. destruct (make_task_shape _ _ _ _ _ _ _ _ H) as [_ [pr1 [Ea [av [Ep [Ec Epr]]]]]].
-  destruct (alloc_dyn_spec _ _ _ _ Hv Ea) as [V1 [M1 [N1 [I1 _]]]].
+  intros Hv Hs p. destruct (canon_spec st Hs) as [C M].
+  destruct (subtract_ranges_spec pr (canon st) Hv) as [_ [_ X]].
+  rewrite (X (canonp_valid _ C) p), M. reflexivity.
+Qed.
+
+Lemma make_task_built exec o d k chans pr cpu mem pr' cpu' mem' t :
+  pvalid pr -> make_task exec o d k chans pr cpu mem = MkOk pr' cpu' mem' t -> built k pr pr' t.
+Proof.
+  intros Hv H.
+  destruct (make_task_shape _ _ _ _ _ _ _ _ _ _ _ _ H) as [_ [_ [_ [pr1 [Ea [av [Ep [Ec Epr]]]]]]]].
+  destruct (subtract_ranges_spec pr (canon (k_static k)) Hv) as [V0 [S0 _]].
+  destruct (alloc_dyn_spec _ _ _ _ V0 Ea) as [V1 [M1 [N1 [I1 _]]]].
   destruct (ports_of_spec pr1 av V1 Ep) as [Cav Mav].
   destruct (rremove_spec av 0 control_port_floor (N.le_0_l _) Cav) as [Cr Mr].
   pose proof (rmin_in _ _ Cr Ec) as Hq. rewrite Mr in Hq.
   apply andb_true_iff in Hq. destruct Hq as [Hq1 Hq2]. rewrite Mav in Hq1.
   assert (Hqf : control_port_floor < t_ctl t).
   { revert Hq2. bool_arith. }
-  destruct (subtract_port_spec pr1 (t_ctl t) V1) as [Vs Ms]. subst pr'.
-  unfold built, picked.
-  split; [exact Vs|]. split.
-  { intro p. rewrite Ms, M1, memN_app, memN_cons, negb_orb. cbn [memN existsb].
-    rewrite orb_false_r, !andb_assoc. reflexivity. }
-  split.
-  { apply NoDup_snoc; [exact N1|]. intro Hin. rewrite M1 in Hq1.
-    apply andb_true_iff in Hq1. destruct Hq1 as [_ X]. apply negb_true_iff in X.
-    apply memN_In in Hin. congruence. }
-  split.
-  { intros p Hp. apply in_app_or in Hp. destruct Hp as [Hp|[Hp|[]]].
+  destruct (subtract_port_spec pr1 (t_ctl t) V1) as [Vs Ms].
+  destruct (subtract_ranges_spec (subtract_port pr1 (t_ctl t)) (t_req t) Vs) as [V3 [S3 _]].
+  subst pr'.
+  (* a port still there at the end was there after the control port was taken *)
+  assert (Hback : forall p, pmem p (subtract_ranges (subtract_port pr1 (t_ctl t)) (t_req t)) = true ->
+                            pmem p (subtract_ranges pr (canon (k_static k))) = true /\ ~ In p (picked t)).
+  { intros p Hp. specialize (S3 p Hp). rewrite Ms, M1 in S3.
+    apply andb_true_iff in S3. destruct S3 as [S3 S4]. apply andb_true_iff in S3. destruct S3 as [S5 S6].
+    split; [exact S5|]. unfold picked. intro Hin. apply in_app_or in Hin. destruct Hin as [Hin|[Hin|[]]].
+    - apply memN_In in Hin. rewrite Hin in S6. discriminate.
+    - subst p. rewrite N.eqb_refl in S4. discriminate. }
+  assert (Hpick : forall p, In p (picked t) -> pmem p (subtract_ranges pr (canon (k_static k))) = true).
+  { intros p Hp. unfold picked in Hp. apply in_app_or in Hp. destruct Hp as [Hp|[Hp|[]]].
     - apply (I1 p Hp).
     - subst p. rewrite M1 in Hq1. apply andb_true_iff in Hq1. apply Hq1. }
+  unfold built.
+  split; [exact V3|]. split.
+  { intros p Hp. destruct (Hback p Hp) as [A B]. split; [apply S0; exact A|exact B]. }
+  split.
+  { intros Hs p Hp. destruct (Hback p Hp) as [A _]. rewrite (static_removed pr _ Hv Hs) in A.
+    apply andb_true_iff in A. destruct A as [_ A]. apply negb_true_iff in A. exact A. }
+  split.
+  { unfold picked. apply NoDup_snoc; [exact N1|]. intro Hin. rewrite M1 in Hq1.
+    apply andb_true_iff in Hq1. destruct Hq1 as [_ X]. apply negb_true_iff in X.
+    apply memN_In in Hin. congruence. }
+  split; [intros p Hp; apply S0, Hpick, Hp|].
+  split.
+  { intros Hs p Hp. pose proof (Hpick p Hp) as A. rewrite (static_removed pr _ Hv Hs) in A.
+    apply andb_true_iff in A. destruct A as [_ A]. apply negb_true_iff in A. exact A. }
   split; [intros p Hp; apply (I1 p Hp)|exact Hqf].
 Qed.
 
-Lemma make_task_abandon exec o d k chans pr pr' :
-  make_task exec o d k chans pr = MkEarly pr' \/ make_task exec o d k chans pr = MkLate pr' -> pr' = None.
+Lemma make_task_fail exec o d k chans pr cpu mem pr' :
+  pvalid pr -> make_task exec o d k chans pr cpu mem = MkFail pr' ->
+  pvalid pr' /\ forall p, pmem p pr' = true -> pmem p pr = true.
 Proof.
-  unfold make_task.
-  destruct (alloc_dyn chans pr) as [pr1 dyn| |]; [|intros [H|H]; inversion H; reflexivity|intros [H|H]; discriminate].
-  destruct (ports_of pr1) as [av|]; [|intros [H|H]; inversion H; reflexivity].
-  destruct (rmin (rremove av 0 control_port_floor)); intros [H|H]; discriminate.
+  intros Hv H. unfold make_task in H.
+  destruct (subtract_ranges_spec pr (canon (k_static k)) Hv) as [V0 [S0 _]].
+  destruct (alloc_dyn chans (subtract_ranges pr (canon (k_static k)))) as [pr1 dyn|pr1] eqn:Ea.
+  - destruct (alloc_dyn_spec _ _ _ _ V0 Ea) as [V1 [M1 _]].
+    assert (X : pvalid pr1 /\ forall p, pmem p pr1 = true -> pmem p pr = true).
+    { split; [exact V1|]. intros p Hp. rewrite M1 in Hp. apply andb_true_iff in Hp. apply S0, Hp. }
+    destruct (ports_of pr1) as [av|]; [|inversion H; subst; exact X].
+    destruct (rmin (rremove av 0 control_port_floor)); [discriminate|inversion H; subst; exact X].
+  - inversion H; subst pr1. destruct (alloc_dyn_fail _ _ _ V0 Ea) as [V M].
+    split; [exact V|]. intros p Hp. apply S0, M, Hp.
 Qed.
 
 (* the requested ports of a task are exactly its static ranges, its dynamic ports and the
@@ -855,6 +998,16 @@ Qed.
 
 (* ================================================================ F. the offer loops *)
 
+Definition static_of_task (t : task) : ranges :=
+  match d_class (t_desc t) with Some k => k_static k | None => [] end.
+
+(* a port a task holds: one of its dynamic ports, its control port, or - when its static ranges
+   are well formed - one of its static ports *)
+Definition claimed (p : N) (t : task) : Prop :=
+  In p (picked t) \/ (Forall rvalid (static_of_task t) /\ inr p (static_of_task t) = true).
+
+Definition disjoint_claims (t1 t2 : task) : Prop := forall p, claimed p t1 -> ~ claimed p t2.
+
 (* what holds for a launched task whatever the port ranges look like *)
 Definition task_base (exec : N * N) (o : offer) (t : task) : Prop :=
   satisfy (o_attrs o) (d_constraints (t_desc t)) = true /\
@@ -868,179 +1021,232 @@ Definition task_ports (o : offer) (t : task) : Prop :=
   (forall p, In p (picked t) -> pmem p (o_ports o) = true) /\
   (forall p, In p (map snd (t_dyn t)) -> data_port_floor < p) /\
   control_port_floor < t_ctl t /\
-  (forall k, d_class (t_desc t) = Some k -> Forall rvalid (k_static k) ->
-     forall p, inr p (k_static k) = true -> pmem p (o_ports o) = true).
+  NoDup (picked t) /\
+  (forall p, claimed p t -> pmem p (o_ports o) = true) /\
+  (Forall rvalid (static_of_task t) -> forall p, In p (picked t) -> inr p (static_of_task t) = false).
 
 Record ports_inv (o : offer) (st : ost) : Prop := mkPI {
   pi_valid : pvalid (s_rem st);
   pi_sub : forall p, pmem p (s_rem st) = true -> pmem p (o_ports o) = true;
-  pi_fresh : forall p, In p (all_picked (s_tasks st)) -> pmem p (s_rem st) = false;
-  pi_nodup : NoDup (all_picked (s_tasks st));
+  pi_fresh : forall t p, In t (s_tasks st) -> claimed p t -> pmem p (s_rem st) = false;
+  pi_pairs : ForallOrdPairs disjoint_claims (s_tasks st);
   pi_tasks : Forall (task_ports o) (s_tasks st)
 }.
 
+Definition used_cpu (ts : list task) : N := sumN (map t_cpu ts).
+Definition used_mem (ts : list task) : N := sumN (map t_mem ts).
+Definition want_cpu (t : task) : N := match d_class (t_desc t) with Some k => k_cpu k | None => 0 end.
+Definition want_mem (t : task) : N := match d_class (t_desc t) with Some k => k_mem k | None => 0 end.
+
+(* bookkeeping of one scalar resource: [rem] is what is left of [offered], [used] what the
+   TaskInfos ask for, [wants] what the templates ask for, [e] the executor's share per task *)
+Definition scal_inv (offered rem : option N) (used wants e : N) (nonempty : bool) : Prop :=
+  match offered with
+  | None => rem = None
+  | Some c =>
+    match rem with Some r => r + used = c | None => True end /\
+    wants <= used /\ wants <= c /\ (nonempty = true -> used <= c + e)
+  end.
+
 Record inv (exec : N * N) (o : offer) (st : ost) : Prop := mkInv {
   inv_base : Forall (task_base exec o) (s_tasks st);
-  inv_undecl : s_undecl st = true -> s_tasks st <> [] \/ s_aband st = true;
-  inv_tasks_undecl : s_tasks st <> [] -> s_undecl st = true;
+  inv_cpu : scal_inv (o_cpu o) (s_cpu st) (used_cpu (s_tasks st)) (sumN (map want_cpu (s_tasks st)))
+                     (fst exec) (match s_tasks st with [] => false | _ => true end);
+  inv_mem : scal_inv (o_mem o) (s_mem st) (used_mem (s_tasks st)) (sumN (map want_mem (s_tasks st)))
+                     (snd exec) (match s_tasks st with [] => false | _ => true end);
   inv_ports : pvalid (o_ports o) -> ports_inv o st
 }.
 
-Lemma inv_init exec o : inv exec o (mkOst (o_ports o) [] false false).
+Lemma inv_init exec o : inv exec o (mkOst (o_ports o) (o_cpu o) (o_mem o) []).
 Proof.
   constructor; cbn.
   - constructor.
-  - discriminate.
-  - congruence.
+  - unfold scal_inv. destruct (o_cpu o) as [c|]; [|reflexivity]. cbn.
+    split; [apply N.add_0_r|]. split; [apply N.le_refl|]. split; [apply N.le_0_l|discriminate].
+  - unfold scal_inv. destruct (o_mem o) as [c|]; [|reflexivity]. cbn.
+    split; [apply N.add_0_r|]. split; [apply N.le_refl|]. split; [apply N.le_0_l|discriminate].
   - intro Hv. constructor; cbn.
     + exact Hv.
     + auto.
-    + intros p [].
+    + intros t p [].
     + constructor.
     + constructor.
 Qed.
 
-Lemma try_desc_mk exec o pr d r :
-  try_desc exec o pr d = TMk r ->
+Lemma try_desc_mk exec o pr cpu mem d r :
+  try_desc exec o pr cpu mem d = TMk r ->
   satisfy (o_attrs o) (d_constraints d) = true /\
   exists k, d_class d = Some k /\
-    res_satisfy (o_cpu o) (o_mem o) pr (k_cpu k) (k_mem k) (k_static k)
+    res_satisfy cpu mem pr (k_cpu k) (k_mem k) (k_static k)
                 (Nlen (merge_inbound (d_rbind d) (k_bind k))) = true /\
-    r = make_task exec o d k (merge_inbound (d_rbind d) (k_bind k)) pr.
+    r = make_task exec o d k (merge_inbound (d_rbind d) (k_bind k)) pr cpu mem.
 Proof.
   unfold try_desc. destruct (satisfy (o_attrs o) (d_constraints d)); cbn [negb]; [|discriminate].
   destruct (d_class d) as [k|]; [|discriminate].
-  destruct (res_satisfy (o_cpu o) (o_mem o) pr (k_cpu k) (k_mem k) (k_static k)
+  destruct (res_satisfy cpu mem pr (k_cpu k) (k_mem k) (k_static k)
                         (Nlen (merge_inbound (d_rbind d) (k_bind k)))) eqn:E; cbn [negb]; [|discriminate].
   intro H. inversion H. split; [reflexivity|]. exists k. auto.
+Qed.
+
+Lemma sumN_snoc l x : sumN (l ++ [x]) = sumN l + x.
+Proof.
+  unfold sumN. induction l as [|a l IH]; cbn [app fold_right]; [lia|]. rewrite IH. lia.
+Qed.
+
+Lemma map_snoc {A B} (f : A -> B) l x : map f (l ++ [x]) = map f l ++ [f x].
+Proof. rewrite map_app. reflexivity. Qed.
+
+(* one more task: it wanted [k] (checked against what was left), its TaskInfo asks for [k + e] *)
+Lemma scal_inv_step offered r used wants e ne k :
+  scal_inv offered (Some r) used wants e ne -> k <= r ->
+  scal_inv offered (subtract_scalar (Some r) (k + e)) (used + (k + e)) (wants + k) e true.
+Proof.
+  unfold scal_inv, subtract_scalar. destruct offered as [c|]; [|discriminate].
+  intros [H1 [H0 [H2 H3]]] Hk.
+  split.
+  - destruct (N.eqb (k + e) 0) eqn:E0.
+    + apply N.eqb_eq in E0. lia.
+    + destruct (k + e <? r) eqn:E1; [|exact I]. apply N.ltb_lt in E1. lia.
+  - split; [lia|]. split; [lia|]. intros _. lia.
 Qed.
 
 Lemma all_picked_snoc ts t : all_picked (ts ++ [t]) = all_picked ts ++ picked t.
 Proof. unfold all_picked. rewrite flat_map_app. cbn. rewrite app_nil_r. reflexivity. Qed.
 
-Lemma NoDup_app_intro {A} (l1 l2 : list A) :
-  NoDup l1 -> NoDup l2 -> (forall x, In x l1 -> ~ In x l2) -> NoDup (l1 ++ l2).
+Lemma FOP_snoc {A} (R : A -> A -> Prop) l x :
+  ForallOrdPairs R l -> Forall (fun y => R y x) l -> ForallOrdPairs R (l ++ [x]).
 Proof.
-  induction l1 as [|a l1 IH]; intros H1 H2 Hd; [exact H2|].
-  inversion H1 as [|x xs Ha Hl]; subst. cbn. constructor.
-  - intro Hin. apply in_app_or in Hin. destruct Hin as [Hin|Hin]; [contradiction|].
-    apply (Hd a (or_introl eq_refl) Hin).
-  - apply IH; [exact Hl|exact H2|]. intros x Hx. apply Hd. right. exact Hx.
+  induction 1 as [|a l Ha Hl IH]; intro Hx; cbn.
+  - constructor; constructor.
+  - inversion Hx as [|y ys Hax Hlx]; subst. constructor.
+    + apply Forall_app. split; [exact Ha|]. constructor; [exact Hax|constructor].
+    + apply IH. exact Hlx.
 Qed.
+
+Lemma bool_not_true b : b <> true -> b = false.
+Proof. destruct b; congruence. Qed.
 
 (* a task was built and appended *)
-Lemma inv_step_ok exec o st d pr t :
-  inv exec o st -> try_desc exec o (s_rem st) d = TMk (MkOk pr t) ->
-  inv exec o (mkOst pr (s_tasks st ++ [t]) true (s_aband st)).
+Lemma inv_step_ok exec o st d pr cpu mem t :
+  inv exec o st -> try_st exec o st d = TMk (MkOk pr cpu mem t) ->
+  inv exec o (st_ok st pr cpu mem t).
 Proof.
-  intros [Hb Hu Htu Hp] Ht.
-  destruct (try_desc_mk _ _ _ _ _ Ht) as [Hsat [k [Hk [Hres Hmk]]]]. symmetry in Hmk.
-  destruct (make_task_shape _ _ _ _ _ _ _ _ Hmk) as [Hsh _].
+  intros [Hb Hc Hm Hp] Ht. unfold try_st in Ht.
+  destruct (try_desc_mk _ _ _ _ _ _ _ Ht) as [Hsat [k [Hk [Hres Hmk]]]]. symmetry in Hmk.
+  destruct (make_task_shape _ _ _ _ _ _ _ _ _ _ _ _ Hmk) as [Hsh [Ecpu [Emem _]]].
   assert (Hd : t_desc t = d) by apply Hsh.
-  constructor; cbn [s_rem s_tasks s_undecl s_aband].
+  assert (Htc : t_cpu t = k_cpu k + fst exec) by apply Hsh.
+  assert (Htm : t_mem t = k_mem k + snd exec) by apply Hsh.
+  (* what the resource check saw *)
+  assert (Hchk : (exists r, s_cpu st = Some r /\ k_cpu k <= r) /\ (exists r, s_mem st = Some r /\ k_mem k <= r)).
+  { unfold res_satisfy in Hres.
+    destruct (s_cpu st) as [c|]; [|discriminate].
+    destruct (c <? k_cpu k) eqn:Ec; [discriminate|]. apply N.ltb_ge in Ec.
+    destruct (s_mem st) as [m|]; [|discriminate].
+    destruct ((m / 1000) * 1000 <? k_mem k) eqn:Em; [discriminate|]. apply N.ltb_ge in Em.
+    split; [exists c; auto|]. exists m. split; [reflexivity|]. pose proof (mul_div_le_1000 m). lia. }
+  destruct Hchk as [[rc [Erc Lrc]] [rm [Erm Lrm]]].
+  assert (Hwc : want_cpu t = k_cpu k) by (unfold want_cpu; rewrite Hd, Hk; reflexivity).
+  assert (Hwm : want_mem t = k_mem k) by (unfold want_mem; rewrite Hd, Hk; reflexivity).
+  assert (Hne : match s_tasks st ++ [t] with [] => false | _ => true end = true)
+    by (destruct (s_tasks st); reflexivity).
+  constructor; unfold st_ok; cbn [s_rem s_cpu s_mem s_tasks].
   - apply Forall_app. split; [exact Hb|]. constructor; [|constructor].
     unfold task_base. rewrite Hd. split; [exact Hsat|]. exists k. split; [exact Hk|].
-    unfold res_satisfy in Hres.
-    destruct (o_cpu o) as [c|]; [|discriminate].
-    destruct (c <? k_cpu k) eqn:Ec; [discriminate|]. apply N.ltb_ge in Ec.
-    destruct (o_mem o) as [m|]; [|discriminate].
-    destruct ((m / 1000) * 1000 <? k_mem k) eqn:Em; [discriminate|]. apply N.ltb_ge in Em.
-    split; [exists c; split; [reflexivity|exact Ec]|].
-    split; [exists m; split; [reflexivity|pose proof (mul_div_le_1000 m); lia]|].
+    split.
+    { rewrite Erc in Hc. unfold scal_inv in Hc. destruct (o_cpu o) as [c|]; [|discriminate].
+      exists c. split; [reflexivity|]. destruct Hc as [Hc _]. lia. }
+    split.
+    { rewrite Erm in Hm. unfold scal_inv in Hm. destruct (o_mem o) as [m|]; [|discriminate].
+      exists m. split; [reflexivity|]. destruct Hm as [Hm _]. lia. }
     exact Hsh.
-  - intros _. left. destruct (s_tasks st); discriminate.
-  - reflexivity.
+  - rewrite Hne. unfold used_cpu. rewrite !map_snoc, !sumN_snoc, Hwc, Htc, Ecpu, Erc, Htc.
+    rewrite Erc in Hc. apply (scal_inv_step _ _ _ _ _ _ _ Hc Lrc).
+  - rewrite Hne. unfold used_mem. rewrite !map_snoc, !sumN_snoc, Hwm, Htm, Emem, Erm, Htm.
+    rewrite Erm in Hm. apply (scal_inv_step _ _ _ _ _ _ _ Hm Lrm).
   - intro Hv. destruct (Hp Hv) as [Pv Ps Pf Pn Pt].
-    destruct (make_task_built _ _ _ _ _ _ _ _ Pv Hmk) as [Bv [Bm [Bn [Bi [Bd Bc]]]]].
+    destruct (make_task_built _ _ _ _ _ _ _ _ _ _ _ _ Pv Hmk) as [Bv [Bm [Bs [Bn [Bi [Bis [Bd Bc]]]]]]].
     destruct (res_satisfy_sound _ _ _ _ _ _ _ Pv Hres) as [_ [_ [_ Hst]]].
+    assert (Est : static_of_task t = k_static k) by (unfold static_of_task; rewrite Hd, Hk; reflexivity).
+    (* whatever the new task holds was free before it was built *)
+    assert (Hfree : forall p, claimed p t -> pmem p (s_rem st) = true).
+    { intros p [Hp1|[Hs Hp2]]; [apply Bi, Hp1|]. rewrite Est in *. apply (Hst Hs p Hp2). }
     constructor; cbn [s_rem s_tasks].
     + exact Bv.
-    + intros p H. rewrite Bm in H. apply andb_true_iff in H. apply Ps. apply H.
-    + intros p H. rewrite all_picked_snoc in H. rewrite Bm. apply in_app_or in H.
-      destruct H as [H|H].
-      * rewrite (Pf p H). reflexivity.
-      * apply memN_In in H. rewrite H. apply andb_false_r.
-    + rewrite all_picked_snoc. apply NoDup_app_intro; [exact Pn|exact Bn|].
-      intros p H1 H2. pose proof (Pf p H1) as X. pose proof (Bi p H2) as Y. congruence.
+    + intros p H. apply Ps. apply (Bm p H).
+    + intros t' p Hin Hcl. apply in_app_or in Hin. destruct Hin as [Hin|[Hin|[]]].
+      * apply bool_not_true. intro H. destruct (Bm p H) as [H1 _]. rewrite (Pf t' p Hin Hcl) in H1. discriminate.
+      * subst t'. apply bool_not_true. intro H. destruct Hcl as [Hp1|[Hs Hp2]].
+        -- destruct (Bm p H) as [_ H2]. contradiction.
+        -- rewrite Est in *. rewrite (Bs Hs p H) in Hp2. discriminate.
+    + apply FOP_snoc; [exact Pn|]. apply Forall_forall. intros t' Hin p Hcl' Hcl.
+      pose proof (Pf t' p Hin Hcl') as X. pose proof (Hfree p Hcl) as Y. congruence.
     + apply Forall_app. split; [exact Pt|]. constructor; [|constructor].
       unfold task_ports. split; [intros p H; apply Ps, Bi, H|]. split; [exact Bd|].
-      split; [exact Bc|]. rewrite Hd. intros k' Hk' Hs p H.
-      rewrite Hk in Hk'. inversion Hk'; subst k'. apply Ps. apply (Hst Hs p H).
+      split; [exact Bc|]. split; [exact Bn|].
+      split; [intros p H; apply Ps, Hfree, H|]. rewrite Est. exact Bis.
 Qed.
 
-(* the ports resource is gone; the task list is unchanged *)
-Lemma inv_step_none exec o st u a :
-  inv exec o st -> (u = true -> s_tasks st <> [] \/ a = true) -> (s_tasks st <> [] -> u = true) ->
-  inv exec o (mkOst None (s_tasks st) u a).
+(* gave up: tasks, cpus and mem as before, possibly fewer ports left *)
+Lemma inv_step_fail exec o st d pr :
+  inv exec o st -> try_st exec o st d = TMk (MkFail pr) -> inv exec o (st_fail st pr).
 Proof.
-  intros [Hb Hu Htu Hp] H1 H2. constructor; cbn [s_rem s_tasks s_undecl s_aband]; try assumption.
-  intro Hv. destruct (Hp Hv) as [Pv Ps Pf Pn Pt]. constructor; cbn [s_rem s_tasks]; try assumption.
-  - exact I.
-  - intros p H. discriminate.
-  - reflexivity.
+  intros [Hb Hc Hm Hp] Ht. unfold try_st in Ht.
+  destruct (try_desc_mk _ _ _ _ _ _ _ Ht) as [_ [k [_ [_ Hmk]]]]. symmetry in Hmk.
+  constructor; unfold st_fail; cbn [s_rem s_cpu s_mem s_tasks]; try assumption.
+  intro Hv. destruct (Hp Hv) as [Pv Ps Pf Pn Pt].
+  destruct (make_task_fail _ _ _ _ _ _ _ _ _ Pv Hmk) as [V M].
+  constructor; cbn [s_rem s_tasks]; try assumption.
+  - intros p H. apply Ps, M, H.
+  - intros t p Hin Hcl. apply bool_not_true. intro H.
+    pose proof (Pf t p Hin Hcl) as X. pose proof (M p H) as Y. congruence.
 Qed.
 
-Lemma inv_step_early exec o st d pr :
-  inv exec o st -> try_desc exec o (s_rem st) d = TMk (MkEarly pr) ->
-  inv exec o (mkOst pr (s_tasks st) (s_undecl st) (s_aband st)).
+Lemma prematch_loop_inv exec o : forall pm st st' und,
+  inv exec o st -> prematch_loop exec o pm st = (st', und) -> inv exec o st'.
 Proof.
-  intros Hi Ht. destruct (try_desc_mk _ _ _ _ _ Ht) as [_ [k [_ [_ Hmk]]]].
-  assert (pr = None) by (eapply make_task_abandon; left; symmetry; exact Hmk). subst pr.
-  apply inv_step_none; [exact Hi|apply Hi|apply Hi].
-Qed.
-
-Lemma inv_step_late exec o st d pr :
-  inv exec o st -> try_desc exec o (s_rem st) d = TMk (MkLate pr) ->
-  inv exec o (mkOst pr (s_tasks st) true true).
-Proof.
-  intros Hi Ht. destruct (try_desc_mk _ _ _ _ _ Ht) as [_ [k [_ [_ Hmk]]]].
-  assert (pr = None) by (eapply make_task_abandon; right; symmetry; exact Hmk). subst pr.
-  apply inv_step_none; [exact Hi|intros _; right; reflexivity|reflexivity].
-Qed.
-
-Lemma prematch_loop_inv exec o : forall pm st st' und p,
-  inv exec o st -> prematch_loop exec o pm st = (st', und, p) -> inv exec o st'.
-Proof.
-  induction pm as [|d r IH]; intros st st' und p Hi H; cbn [prematch_loop] in H.
+  induction pm as [|d r IH]; intros st st' und Hi H; cbn [prematch_loop] in H.
   - inversion H; subst. exact Hi.
-  - destruct (try_desc exec o (s_rem st) d) as [| | |[pr t|pr|pr|]] eqn:Et;
+  - destruct (try_st exec o st d) as [| | |[pr cpu mem t|pr]] eqn:Et;
       try (inversion H; subst; exact Hi).
-    + apply (IH _ _ _ _ (inv_step_ok _ _ _ _ _ _ Hi Et) H).
-    + inversion H; subst. apply (inv_step_early _ _ _ _ _ Hi Et).
-    + inversion H; subst. apply (inv_step_late _ _ _ _ _ Hi Et).
+    + apply (IH _ _ _ (inv_step_ok _ _ _ _ _ _ _ _ Hi Et) H).
+    + inversion H; subst. apply (inv_step_fail _ _ _ _ _ Hi Et).
 Qed.
 
-Lemma still_loop_inv exec o : forall ds st st' lft p,
-  inv exec o st -> still_loop exec o ds st = (st', lft, p) -> inv exec o st'.
+Lemma still_loop_inv exec o : forall ds st st' lft,
+  inv exec o st -> still_loop exec o ds st = (st', lft) -> inv exec o st'.
 Proof.
-  induction ds as [|d r IH]; intros st st' lft p Hi H; cbn [still_loop] in H.
+  induction ds as [|d r IH]; intros st st' lft Hi H; cbn [still_loop] in H.
   - inversion H; subst. exact Hi.
-  - destruct (try_desc exec o (s_rem st) d) as [| | |[pr t|pr|pr|]] eqn:Et.
-    + destruct (still_loop exec o r st) as [[s l] q] eqn:E. inversion H; subst. apply (IH _ _ _ _ Hi E).
-    + destruct (still_loop exec o r st) as [[s l] q] eqn:E. inversion H; subst. apply (IH _ _ _ _ Hi E).
-    + destruct (still_loop exec o r st) as [[s l] q] eqn:E. inversion H; subst. apply (IH _ _ _ _ Hi E).
-    + apply (IH _ _ _ _ (inv_step_ok _ _ _ _ _ _ Hi Et) H).
-    + destruct (still_loop exec o r (mkOst pr (s_tasks st) (s_undecl st) (s_aband st))) as [[s l] q] eqn:E.
-      inversion H; subst. apply (IH _ _ _ _ (inv_step_early _ _ _ _ _ Hi Et) E).
-    + destruct (still_loop exec o r (mkOst pr (s_tasks st) true true)) as [[s l] q] eqn:E.
-      inversion H; subst. apply (IH _ _ _ _ (inv_step_late _ _ _ _ _ Hi Et) E).
-    + inversion H; subst. exact Hi.
+  - destruct (try_st exec o st d) as [| | |[pr cpu mem t|pr]] eqn:Et.
+    + destruct (still_loop exec o r st) as [s l] eqn:E. inversion H; subst. apply (IH _ _ _ Hi E).
+    + destruct (still_loop exec o r st) as [s l] eqn:E. inversion H; subst. apply (IH _ _ _ Hi E).
+    + destruct (still_loop exec o r st) as [s l] eqn:E. inversion H; subst. apply (IH _ _ _ Hi E).
+    + apply (IH _ _ _ (inv_step_ok _ _ _ _ _ _ _ _ Hi Et) H).
+    + destruct (still_loop exec o r (st_fail st pr)) as [s l] eqn:E.
+      inversion H; subst. apply (IH _ _ _ (inv_step_fail _ _ _ _ _ Hi Et) E).
 Qed.
 
 (* ================================================================ G. one OFFERS round *)
 
+Definition scal_ok (offered : option N) (used wants e : N) (ts : list task) : Prop :=
+  forall c, offered = Some c -> wants <= c /\ (ts <> [] -> used <= c + e).
+
 Definition offer_ok (exec : N * N) (x : offer * list task) : Prop :=
   Forall (task_base exec (fst x)) (snd x) /\
-  (pvalid (o_ports (fst x)) -> NoDup (all_picked (snd x)) /\ Forall (task_ports (fst x)) (snd x)).
+  scal_ok (o_cpu (fst x)) (used_cpu (snd x)) (sumN (map want_cpu (snd x))) (fst exec) (snd x) /\
+  scal_ok (o_mem (fst x)) (used_mem (snd x)) (sumN (map want_mem (snd x))) (snd exec) (snd x) /\
+  (pvalid (o_ports (fst x)) ->
+   ForallOrdPairs disjoint_claims (snd x) /\ Forall (task_ports (fst x)) (snd x)).
 
 Record ginv (exec : N * N) (ids : list N) (g : gst) : Prop := mkGI {
   gi_ok : Forall (offer_ok exec) (g_accepts g);
   gi_used : forall o ts, In (o, ts) (g_accepts g) -> ts <> [] -> ~ In (o_id o) (g_decline g);
   gi_unused : forall id, In id ids -> ~ In id (g_decline g) ->
-     (exists o ts, In (o, ts) (g_accepts g) /\ o_id o = id /\ ts <> []) \/ In id (g_aband g)
+     exists o ts, In (o, ts) (g_accepts g) /\ o_id o = id /\ ts <> []
 }.
 
-Lemma ginv_init exec ids s u : ginv exec ids (mkGst s u ids [] []).
+Lemma ginv_init exec ids s u : ginv exec ids (mkGst s u ids []).
 Proof.
   constructor; cbn.
   - constructor.
@@ -1055,10 +1261,19 @@ Proof.
   - apply negb_true_iff. apply N.eqb_neq. congruence.
 Qed.
 
+Lemma scal_inv_ok offered rem used wants e ts :
+  scal_inv offered rem used wants e (match ts with [] => false | _ => true end) ->
+  scal_ok offered used wants e ts.
+Proof.
+  unfold scal_inv, scal_ok. intros H c Hc. subst offered. destruct H as [_ [_ [H2 H3]]].
+  split; [exact H2|]. intro Hne. apply H3. destruct ts; [congruence|reflexivity].
+Qed.
+
 Lemma inv_offer_ok exec o st : inv exec o st -> offer_ok exec (o, s_tasks st).
 Proof.
-  intros [Hb _ _ Hp]. split; [exact Hb|]. cbn [fst snd]. intro Hv.
-  destruct (Hp Hv) as [_ _ _ Pn Pt]. split; assumption.
+  intros [Hb Hc Hm Hp]. unfold offer_ok. cbn [fst snd].
+  split; [exact Hb|]. split; [apply (scal_inv_ok _ _ _ _ _ _ Hc)|]. split; [apply (scal_inv_ok _ _ _ _ _ _ Hm)|].
+  intro Hv. destruct (Hp Hv) as [_ _ _ Pn Pt]. split; assumption.
 Qed.
 
 (* the effect of one offer goroutine on the round's bookkeeping, given the final loop state *)
@@ -1066,139 +1281,131 @@ Lemma ginv_after exec ids g o st still' undep :
   ginv exec ids g -> inv exec o st ->
   ginv exec ids
        (mkGst still' undep
-              (if s_undecl st then remove_id (o_id o) (g_decline g) else g_decline g)
-              (g_accepts g ++ [(o, s_tasks st)])
-              (if s_aband st then g_aband g ++ [o_id o] else g_aband g)).
+              (match s_tasks st with [] => g_decline g | _ => remove_id (o_id o) (g_decline g) end)
+              (g_accepts g ++ [(o, s_tasks st)])).
 Proof.
-  intros [Gok Gu Gn] Hi. constructor; cbn [g_accepts g_decline g_aband].
+  intros [Gok Gu Gn] Hi. constructor; cbn [g_accepts g_decline].
   - apply Forall_app. split; [exact Gok|]. constructor; [|constructor]. apply inv_offer_ok. exact Hi.
   - intros o' ts Hin Hne Hd.
     assert (Hd' : In (o_id o') (g_decline g)).
-    { destruct (s_undecl st); [apply remove_id_In in Hd; apply Hd|exact Hd]. }
+    { destruct (s_tasks st); [exact Hd|apply remove_id_In in Hd; apply Hd]. }
     apply in_app_or in Hin. destruct Hin as [Hin|[Hin|[]]].
     + apply (Gu o' ts Hin Hne Hd').
-    + inversion Hin; subst o' ts. rewrite (inv_tasks_undecl _ _ _ Hi Hne) in Hd.
+    + inversion Hin; subst o' ts. destruct (s_tasks st) as [|t0 tr]; [congruence|].
       apply remove_id_In in Hd. destruct Hd as [_ X]. apply X. reflexivity.
   - intros id Hid Hd.
     destruct (in_dec N.eq_dec id (g_decline g)) as [Hin|Hnin].
-    + (* it was still to be declined: this goroutine took it out *)
-      destruct (s_undecl st) eqn:Eu; [|contradiction].
+    + (* it was still to be declined: this goroutine took it out, so it launched something *)
+      destruct (s_tasks st) as [|t0 tr] eqn:Et; [contradiction|].
       assert (id = o_id o).
       { destruct (N.eq_dec id (o_id o)) as [E|E]; [exact E|].
         exfalso. apply Hd. apply remove_id_In. split; assumption. }
-      subst id. destruct (inv_undecl _ _ _ Hi Eu) as [Ht|Ha].
-      * left. exists o, (s_tasks st). split; [apply in_or_app; right; left; reflexivity|].
-        split; [reflexivity|exact Ht].
-      * right. rewrite Ha. apply in_or_app. right. left. reflexivity.
-    + destruct (Gn id Hid Hnin) as [[o' [ts [A [B C]]]]|Ha].
-      * left. exists o', ts. split; [apply in_or_app; left; exact A|]. split; assumption.
-      * right. destruct (s_aband st); [apply in_or_app; left; exact Ha|exact Ha].
+      subst id. exists o, (t0 :: tr). split; [apply in_or_app; right; left; reflexivity|].
+      split; [reflexivity|discriminate].
+    + destruct (Gn id Hid Hnin) as [o' [ts [A [B C]]]].
+      exists o', ts. split; [apply in_or_app; left; exact A|]. split; assumption.
 Qed.
 
-Lemma process_offer_ginv exec ids offers descs g o g' :
-  ginv exec ids g -> process_offer exec offers descs g o = Some g' -> ginv exec ids g'.
+Lemma process_offer_ginv exec ids offers descs g o :
+  ginv exec ids g -> ginv exec ids (process_offer exec offers descs g o).
 Proof.
-  intros Hg H. unfold process_offer in H.
+  intros Hg. unfold process_offer.
   destruct (prematch_loop exec o
               (filter (fun d => is_pin_to (o_id o) (pin_of offers d)) descs)
-              (mkOst (o_ports o) [] false false)) as [[st1 und] p1] eqn:E1.
-  pose proof (prematch_loop_inv _ _ _ _ _ _ _ (inv_init exec o) E1) as Hi1.
-  destruct p1; [discriminate|].
+              (mkOst (o_ports o) (o_cpu o) (o_mem o) [])) as [st1 und] eqn:E1.
+  pose proof (prematch_loop_inv _ _ _ _ _ _ (inv_init exec o) E1) as Hi1.
   destruct (g_undep g ++ und) as [|u0 ur] eqn:Eu.
-  - destruct (still_loop exec o (rev (g_still g)) st1) as [[s lft] p] eqn:E2.
-    pose proof (still_loop_inv _ _ _ _ _ _ _ Hi1 E2) as Hi2.
-    destruct p; [discriminate|]. inversion H; subst g'. apply ginv_after; assumption.
-  - inversion H; subst g'. apply ginv_after; assumption.
+  - destruct (still_loop exec o (rev (g_still g)) st1) as [s lft] eqn:E2.
+    pose proof (still_loop_inv _ _ _ _ _ _ Hi1 E2) as Hi2. apply ginv_after; assumption.
+  - apply ginv_after; assumption.
 Qed.
 
-Lemma process_all_ginv exec ids offers descs : forall sched g g',
-  ginv exec ids g -> process_all exec offers descs sched g = Some g' -> ginv exec ids g'.
+Lemma process_all_ginv exec ids offers descs : forall sched g,
+  ginv exec ids g -> ginv exec ids (process_all exec offers descs sched g).
 Proof.
-  induction sched as [|o r IH]; intros g g' Hg H; cbn [process_all] in H.
-  - inversion H; subst. exact Hg.
-  - destruct (process_offer exec offers descs g o) as [g1|] eqn:E; [|discriminate].
-    apply (IH _ _ (process_offer_ginv _ _ _ _ _ _ _ Hg E) H).
+  unfold process_all. induction sched as [|o r IH]; intros g Hg; cbn [fold_left]; [exact Hg|].
+  apply IH. apply process_offer_ginv. exact Hg.
 Qed.
 
-Lemma run_round_ginv exec offers sched descs acc dec ab still und :
-  run_round exec offers sched descs = Done acc dec ab still und ->
-  ginv exec (map o_id offers) (mkGst still und dec acc ab).
+Lemma ginv_eta exec ids g :
+  ginv exec ids g -> ginv exec ids (mkGst (g_still g) (g_undep g) (g_decline g) (g_accepts g)).
+Proof. destruct g. auto. Qed.
+
+Lemma run_round_ginv exec offers sched descs acc dec still und :
+  run_round exec offers sched descs = Done acc dec still und ->
+  ginv exec (map o_id offers) (mkGst still und dec acc).
 Proof.
   unfold run_round. destruct descs as [|d0 dr].
-  - intro H. inversion H; subst. apply ginv_init.
-  - set (descs := d0 :: dr).
-    destruct (filter (fun d => is_pin_nowhere (pin_of offers d)) (rev descs)) as [|n0 nr].
-    + destruct (process_all exec offers descs sched
-                  (mkGst (filter (fun d => is_pin_none (pin_of offers d)) descs) []
-                         (map o_id offers) [] [])) as [g|] eqn:E; [|discriminate].
-      intro H. inversion H; subst.
-      pose proof (process_all_ginv _ _ _ _ _ _ _ (ginv_init exec (map o_id offers) _ _) E) as G.
-      destruct g. exact G.
-    + intro H. inversion H; subst. apply ginv_init.
+  - intro H. inversion H. apply ginv_init.
+  - destruct (filter (fun d => is_pin_nowhere (pin_of offers d)) (rev (d0 :: dr))) as [|n0 nr].
+    + intro H. inversion H. apply ginv_eta. apply process_all_ginv. apply ginv_init.
+    + intro H. inversion H. apply ginv_init.
 Qed.
+
+(* the handler always finishes the round (repaired C05-g: no outcome of the model is a crash) *)
+Lemma run_round_completes exec offers sched descs :
+  exists acc dec still und, run_round exec offers sched descs = Done acc dec still und.
+Proof. destruct (run_round exec offers sched descs) as [a d s u]. exists a, d, s, u. reflexivity. Qed.
 
 (* ================================================================ H. what a finished round guarantees *)
 
-Lemma round_accept_ok exec offers sched descs acc dec ab still und o ts :
-  run_round exec offers sched descs = Done acc dec ab still und ->
+Lemma round_accept_ok exec offers sched descs acc dec still und o ts :
+  run_round exec offers sched descs = Done acc dec still und ->
   In (o, ts) acc -> offer_ok exec (o, ts).
 Proof.
-  intros H Hin. pose proof (run_round_ginv _ _ _ _ _ _ _ _ _ H) as G.
+  intros H Hin. pose proof (run_round_ginv _ _ _ _ _ _ _ _ H) as G.
   pose proof (gi_ok _ _ _ G) as F. cbn [g_accepts] in F. rewrite Forall_forall in F. apply (F _ Hin).
 Qed.
 
-Lemma round_task_base exec offers sched descs acc dec ab still und o ts t :
-  run_round exec offers sched descs = Done acc dec ab still und ->
+Lemma round_task_base exec offers sched descs acc dec still und o ts t :
+  run_round exec offers sched descs = Done acc dec still und ->
   In (o, ts) acc -> In t ts -> task_base exec o t.
 Proof.
-  intros H Hin Ht. destruct (round_accept_ok _ _ _ _ _ _ _ _ _ _ _ H Hin) as [F _].
+  intros H Hin Ht. destruct (round_accept_ok _ _ _ _ _ _ _ _ _ _ H Hin) as [F _].
   cbn [fst snd] in F. rewrite Forall_forall in F. apply (F _ Ht).
 Qed.
 
-Lemma round_task_ports exec offers sched descs acc dec ab still und o ts t :
-  run_round exec offers sched descs = Done acc dec ab still und ->
+Lemma round_task_ports exec offers sched descs acc dec still und o ts t :
+  run_round exec offers sched descs = Done acc dec still und ->
   In (o, ts) acc -> In t ts -> pvalid (o_ports o) -> task_ports o t.
 Proof.
-  intros H Hin Ht Hv. destruct (round_accept_ok _ _ _ _ _ _ _ _ _ _ _ H Hin) as [_ F].
+  intros H Hin Ht Hv. destruct (round_accept_ok _ _ _ _ _ _ _ _ _ _ H Hin) as [_ [_ [_ F]]].
   cbn [fst snd] in F. destruct (F Hv) as [_ F2]. rewrite Forall_forall in F2. apply (F2 _ Ht).
 Qed.
 
 (* ---- constraints ---- *)
-Lemma round_constraints exec offers sched descs acc dec ab still und o ts t c :
-  run_round exec offers sched descs = Done acc dec ab still und ->
+Lemma round_constraints exec offers sched descs acc dec still und o ts t c :
+  run_round exec offers sched descs = Done acc dec still und ->
   In (o, ts) acc -> In t ts ->
   In c (d_constraints (t_desc t)) -> is_equals c = true -> sat1 (o_attrs o) c = true.
 Proof.
-  intros H Hin Ht Hc He. destruct (round_task_base _ _ _ _ _ _ _ _ _ _ _ _ H Hin Ht) as [Hs _].
+  intros H Hin Ht Hc He. destruct (round_task_base _ _ _ _ _ _ _ _ _ _ _ H Hin Ht) as [Hs _].
   apply (satisfy_sound _ _ Hs c Hc He).
 Qed.
 
-Lemma round_class exec offers sched descs acc dec ab still und o ts t :
-  run_round exec offers sched descs = Done acc dec ab still und ->
+Lemma round_class exec offers sched descs acc dec still und o ts t :
+  run_round exec offers sched descs = Done acc dec still und ->
   In (o, ts) acc -> In t ts -> exists k, d_class (t_desc t) = Some k.
 Proof.
-  intros H Hin Ht. destruct (round_task_base _ _ _ _ _ _ _ _ _ _ _ _ H Hin Ht) as [_ [k [Hk _]]].
+  intros H Hin Ht. destruct (round_task_base _ _ _ _ _ _ _ _ _ _ _ H Hin Ht) as [_ [k [Hk _]]].
   exists k. exact Hk.
 Qed.
 
-Lemma round_constraints_nearest exec offers sched descs acc dec ab still und o ts t k a v :
-  run_round exec offers sched descs = Done acc dec ab still und ->
+(* the property's first sentence end to end, whatever the constraint lists look like (duplicates,
+   any depth): the agent satisfies the nearest definition of every attribute *)
+Lemma round_constraints_nearest exec offers sched descs acc dec still und o ts t k a v :
+  run_round exec offers sched descs = Done acc dec still und ->
   In (o, ts) acc -> In t ts -> d_class (t_desc t) = Some k ->
-  d_levels (t_desc t) <> [] ->
-  NoDup (attrs_of (last (d_levels (t_desc t)) [])) ->
-  NoDup (attrs_of (k_cts k)) ->
   (forall l, In l (d_levels (t_desc t) ++ [k_cts k]) -> forallb is_equals l = true) ->
   nearest a (d_levels (t_desc t) ++ [k_cts k]) = Some v ->
   sat1 (o_attrs o) (mkC a v 0) = true.
 Proof.
-  intros H Hin Ht Hk Hne Htop Hkc Heq Hn.
+  intros H Hin Ht Hk Heq Hn.
   assert (Hdc : d_constraints (t_desc t) = desc_constraints (d_levels (t_desc t)) (Some (k_cts k))).
   { unfold d_constraints. rewrite Hk. reflexivity. }
-  destruct (desc_constraints_nearest (d_levels (t_desc t)) (Some (k_cts k)) Hne Htop Hkc) as [_ L].
-  specialize (L a). cbn [all_levels] in L. rewrite Hn in L.
-  destruct (lookup_c_in _ _ _ L) as [c [Hc [Ea Ev]]].
+  destruct (desc_constraints_has_nearest (d_levels (t_desc t)) (Some (k_cts k)) a v Hn) as [c [Hc [Ea Ev]]].
   rewrite <- (sat1_ext (o_attrs o) c (mkC a v 0) Ea Ev).
-  apply (round_constraints _ _ _ _ _ _ _ _ _ _ _ _ c H Hin Ht).
+  apply (round_constraints _ _ _ _ _ _ _ _ _ _ _ c H Hin Ht).
   - rewrite Hdc. exact Hc.
   - destruct (desc_constraints_in _ _ _ Hc) as [l [Hl Hcl]]. cbn [all_levels] in Hl.
     specialize (Heq l Hl). rewrite forallb_forall in Heq. apply (Heq c Hcl).
@@ -1212,8 +1419,11 @@ Proof.
 Qed.
 
 (* ---- resources ---- *)
-Lemma round_resources exec offers sched descs acc dec ab still und o ts t k :
-  run_round exec offers sched descs = Done acc dec ab still und ->
+Lemma static_of_class t k : d_class (t_desc t) = Some k -> static_of_task t = k_static k.
+Proof. intro H. unfold static_of_task. rewrite H. reflexivity. Qed.
+
+Lemma round_resources exec offers sched descs acc dec still und o ts t k :
+  run_round exec offers sched descs = Done acc dec still und ->
   In (o, ts) acc -> In t ts -> d_class (t_desc t) = Some k ->
   (exists c, o_cpu o = Some c /\ k_cpu k <= c) /\
   (exists m, o_mem o = Some m /\ k_mem k <= m) /\
@@ -1221,99 +1431,131 @@ Lemma round_resources exec offers sched descs acc dec ab still und o ts t k :
    forall p, inr p (k_static k) = true -> pmem p (o_ports o) = true).
 Proof.
   intros H Hin Ht Hk.
-  destruct (round_task_base _ _ _ _ _ _ _ _ _ _ _ _ H Hin Ht) as [_ [k' [Hk' [Hc [Hm _]]]]].
+  destruct (round_task_base _ _ _ _ _ _ _ _ _ _ _ H Hin Ht) as [_ [k' [Hk' [Hc [Hm _]]]]].
   rewrite Hk in Hk'. inversion Hk'; subst k'. split; [exact Hc|]. split; [exact Hm|].
   intros Hv Hs p Hp.
-  destruct (round_task_ports _ _ _ _ _ _ _ _ _ _ _ _ H Hin Ht Hv) as [_ [_ [_ X]]].
-  apply (X k Hk Hs p Hp).
+  destruct (round_task_ports _ _ _ _ _ _ _ _ _ _ _ H Hin Ht Hv) as [_ [_ [_ [_ [X _]]]]].
+  apply X. right. rewrite (static_of_class t k Hk). auto.
 Qed.
 
 (* ---- ports ---- *)
-Lemma round_ports_from_offer exec offers sched descs acc dec ab still und o ts t :
-  run_round exec offers sched descs = Done acc dec ab still und ->
+Lemma round_ports_from_offer exec offers sched descs acc dec still und o ts t :
+  run_round exec offers sched descs = Done acc dec still und ->
   In (o, ts) acc -> In t ts -> pvalid (o_ports o) ->
   (forall p, In p (picked t) -> pmem p (o_ports o) = true) /\
   (forall p, In p (map snd (t_dyn t)) -> data_port_floor < p) /\
   control_port_floor < t_ctl t.
 Proof.
   intros H Hin Ht Hv.
-  destruct (round_task_ports _ _ _ _ _ _ _ _ _ _ _ _ H Hin Ht Hv) as [A [B [C _]]]. auto.
+  destruct (round_task_ports _ _ _ _ _ _ _ _ _ _ _ H Hin Ht Hv) as [A [B [C _]]]. auto.
 Qed.
 
-Lemma round_ports_per_channel exec offers sched descs acc dec ab still und o ts t k :
-  run_round exec offers sched descs = Done acc dec ab still und ->
+Lemma round_ports_per_channel exec offers sched descs acc dec still und o ts t k :
+  run_round exec offers sched descs = Done acc dec still und ->
   In (o, ts) acc -> In t ts -> d_class (t_desc t) = Some k ->
   map fst (t_dyn t) = map ch_name (filter ch_tcp (merge_inbound (d_rbind (t_desc t)) (k_bind k))) /\
   t_handed t = (if k_controllable k then Some (t_ctl t) else None).
 Proof.
   intros H Hin Ht Hk.
-  destruct (round_task_base _ _ _ _ _ _ _ _ _ _ _ _ H Hin Ht) as [_ [k' [Hk' [_ [_ Hsh]]]]].
+  destruct (round_task_base _ _ _ _ _ _ _ _ _ _ _ H Hin Ht) as [_ [k' [Hk' [_ [_ Hsh]]]]].
   rewrite Hk in Hk'. inversion Hk'; subst k'. destruct Hsh as [_ [A [B _]]]. auto.
 Qed.
 
-Lemma round_request exec offers sched descs acc dec ab still und o ts t k :
-  run_round exec offers sched descs = Done acc dec ab still und ->
+Lemma round_request exec offers sched descs acc dec still und o ts t k :
+  run_round exec offers sched descs = Done acc dec still und ->
   In (o, ts) acc -> In t ts -> d_class (t_desc t) = Some k ->
   t_cpu t = k_cpu k + fst exec /\ t_mem t = k_mem k + snd exec /\
   (Forall rvalid (k_static k) ->
    forall p, inr p (t_req t) = inr p (k_static k) || memN p (picked t)).
 Proof.
   intros H Hin Ht Hk.
-  destruct (round_task_base _ _ _ _ _ _ _ _ _ _ _ _ H Hin Ht) as [_ [k' [Hk' [_ [_ Hsh]]]]].
+  destruct (round_task_base _ _ _ _ _ _ _ _ _ _ _ H Hin Ht) as [_ [k' [Hk' [_ [_ Hsh]]]]].
   rewrite Hk in Hk'. inversion Hk'; subst k'.
   pose proof (shaped_req _ _ _ _ _ _ Hsh) as R.
   destruct Hsh as [_ [_ [_ [_ [A [B _]]]]]]. auto.
 Qed.
 
-Lemma floors_le : data_port_floor <= control_port_floor.
-Proof. vm_compute. discriminate. Qed.
-
 Lemma all_picked_In p ts : In p (all_picked ts) <-> exists t, In t ts /\ In p (picked t).
 Proof. unfold all_picked. apply in_flat_map. Qed.
 
-Lemma picked_above_floor o t p : task_ports o t -> In p (picked t) -> data_port_floor < p.
+Lemma NoDup_app_intro {A} (l1 l2 : list A) :
+  NoDup l1 -> NoDup l2 -> (forall x, In x l1 -> ~ In x l2) -> NoDup (l1 ++ l2).
 Proof.
-  intros [_ [B [C _]]] Hp. unfold picked in Hp. apply in_app_or in Hp. destruct Hp as [Hp|[Hp|[]]].
-  - apply (B p Hp).
-  - subst p. pose proof floors_le. lia.
+  induction l1 as [|a l1 IH]; intros H1 H2 Hd; [exact H2|].
+  inversion H1 as [|x xs Ha Hl]; subst. cbn. constructor.
+  - intro Hin. apply in_app_or in Hin. destruct Hin as [Hin|Hin]; [contradiction|].
+    apply (Hd a (or_introl eq_refl) Hin).
+  - apply IH; [exact Hl|exact H2|]. intros x Hx. apply Hd. right. exact Hx.
 Qed.
 
-Lemma round_ports_distinct exec offers sched descs acc dec ab still und o ts :
-  run_round exec offers sched descs = Done acc dec ab still und ->
+Lemma nodup_all_picked ts :
+  ForallOrdPairs disjoint_claims ts -> Forall (fun t => NoDup (picked t)) ts -> NoDup (all_picked ts).
+Proof.
+  induction 1 as [|a l Ha Hl IH]; intro Hn; [constructor|].
+  inversion Hn as [|x xs Hna Hnl]; subst. cbn [all_picked flat_map].
+  apply NoDup_app_intro; [exact Hna|apply IH; exact Hnl|].
+  intros p Hp Hp2. apply all_picked_In in Hp2. destruct Hp2 as [t [Ht Hpt]].
+  rewrite Forall_forall in Ha. apply (Ha t Ht p); left; assumption.
+Qed.
+
+(* ports handed to tasks are pairwise distinct (repaired C05-c): no port is held by two tasks of
+   an offer - as dynamic, control or (well-formed) static port -, within a task the dynamic and
+   control ports differ from each other and from its static ports, and offers with disjoint
+   ports (two offers of one agent) never share a port *)
+Lemma round_ports_distinct exec offers sched descs acc dec still und o ts :
+  run_round exec offers sched descs = Done acc dec still und ->
   In (o, ts) acc -> pvalid (o_ports o) ->
+  ForallOrdPairs disjoint_claims ts /\
   NoDup (all_picked ts) /\
-  (forall t k p, In t ts -> d_class (t_desc t) = Some k -> inr p (k_static k) = true ->
-                 p <= data_port_floor -> ~ In p (all_picked ts)) /\
-  (forall o2 ts2, In (o2, ts2) acc -> pvalid (o_ports o2) ->
-                  (forall p, pmem p (o_ports o) = true -> pmem p (o_ports o2) = false) ->
-                  forall p, In p (all_picked ts) -> ~ In p (all_picked ts2)).
+  (forall t, In t ts -> NoDup (picked t) /\
+     (Forall rvalid (static_of_task t) -> forall p, In p (picked t) -> inr p (static_of_task t) = false)) /\
+  (forall o2 ts2 t t2, In (o2, ts2) acc -> pvalid (o_ports o2) ->
+     (forall p, pmem p (o_ports o) = true -> pmem p (o_ports o2) = false) ->
+     In t ts -> In t2 ts2 -> disjoint_claims t t2).
 Proof.
-  intros H Hin Hv. destruct (round_accept_ok _ _ _ _ _ _ _ _ _ _ _ H Hin) as [_ F].
-  cbn [fst snd] in F. destruct (F Hv) as [N1 F1]. rewrite Forall_forall in F1.
+  intros H Hin Hv. destruct (round_accept_ok _ _ _ _ _ _ _ _ _ _ H Hin) as [_ [_ [_ F]]].
+  cbn [fst snd] in F. destruct (F Hv) as [N1 F1]. pose proof F1 as F1'. rewrite Forall_forall in F1.
   split; [exact N1|]. split.
-  - intros t k p _ _ _ Hle Hp. apply all_picked_In in Hp. destruct Hp as [t' [Ht' Hp]].
-    pose proof (picked_above_floor o t' p (F1 _ Ht') Hp). lia.
-  - intros o2 ts2 Hin2 Hv2 Hdis p Hp Hp2.
-    apply all_picked_In in Hp. destruct Hp as [t1 [Ht1 Hp]].
-    apply all_picked_In in Hp2. destruct Hp2 as [t2 [Ht2 Hp2]].
-    destruct (F1 _ Ht1) as [A1 _].
-    destruct (round_task_ports _ _ _ _ _ _ _ _ _ _ _ _ H Hin2 Ht2 Hv2) as [A2 _].
-    specialize (Hdis p (A1 p Hp)). rewrite (A2 p Hp2) in Hdis. discriminate.
+  { apply nodup_all_picked; [exact N1|]. apply Forall_forall. intros t Ht. apply (F1 t Ht). }
+  split.
+  { intros t Ht. destruct (F1 t Ht) as [_ [_ [_ [A [_ B]]]]]. auto. }
+  intros o2 ts2 t t2 Hin2 Hv2 Hdis Ht Ht2 p Hc Hc2.
+  destruct (F1 t Ht) as [_ [_ [_ [_ [A _]]]]].
+  destruct (round_task_ports _ _ _ _ _ _ _ _ _ _ _ H Hin2 Ht2 Hv2) as [_ [_ [_ [_ [A2 _]]]]].
+  specialize (Hdis p (A p Hc)). rewrite (A2 p Hc2) in Hdis. discriminate.
 Qed.
 
-(* ---- decline ---- *)
-Lemma round_decline exec offers sched descs acc dec ab still und :
-  run_round exec offers sched descs = Done acc dec ab still und ->
+(* what is requested for all tasks launched on one offer does not exceed that offer (repaired
+   C05-d): the template wants add up to at most the offered cpu / memory; the TaskInfo totals
+   exceed it by at most one executor share (C05-h) *)
+Lemma round_request_within_offer exec offers sched descs acc dec still und o ts :
+  run_round exec offers sched descs = Done acc dec still und ->
+  In (o, ts) acc -> ts <> [] ->
+  exists c m, o_cpu o = Some c /\ o_mem o = Some m /\
+              sumN (map want_cpu ts) <= c /\ sumN (map want_mem ts) <= m /\
+              used_cpu ts <= c + fst exec /\ used_mem ts <= m + snd exec.
+Proof.
+  intros H Hin Hne. destruct (round_accept_ok _ _ _ _ _ _ _ _ _ _ H Hin) as [Fb [Sc [Sm _]]].
+  cbn [fst snd] in *. destruct ts as [|t0 tr]; [congruence|].
+  inversion Fb as [|x xs Hb0 _]; subst.
+  destruct Hb0 as [_ [k [_ [[c [Ec _]] [[m [Em _]] _]]]]].
+  destruct (Sc c Ec) as [C1 C2]. destruct (Sm m Em) as [M1 M2].
+  exists c, m. repeat split; auto.
+Qed.
+
+(* ---- decline (repaired C05-f) ---- *)
+Lemma round_decline exec offers sched descs acc dec still und :
+  run_round exec offers sched descs = Done acc dec still und ->
   (forall o ts, In (o, ts) acc -> ts <> [] -> ~ In (o_id o) dec) /\
   (forall o, In o offers -> ~ In (o_id o) dec ->
-     (exists o' ts, In (o', ts) acc /\ o_id o' = o_id o /\ ts <> []) \/ In (o_id o) ab).
+     exists o' ts, In (o', ts) acc /\ o_id o' = o_id o /\ ts <> []).
 Proof.
-  intro H. destruct (run_round_ginv _ _ _ _ _ _ _ _ _ H) as [_ Gu Gn].
-  cbn [g_accepts g_decline g_aband] in *. split; [exact Gu|].
+  intro H. destruct (run_round_ginv _ _ _ _ _ _ _ _ H) as [_ Gu Gn].
+  cbn [g_accepts g_decline] in *. split; [exact Gu|].
   intros o Ho Hd. apply (Gn (o_id o)); [apply in_map; exact Ho|exact Hd].
 Qed.
 
-(* ================================================================ I. witnesses of the refuted statements *)
+(* ================================================================ I. the old witnesses, and what remains *)
 
 Definition w_exec : N * N := (10, 64000).
 Definition w_full : portres := Some [(9000, 9100); (30000, 30100)].
@@ -1324,188 +1566,65 @@ Definition w_class (cpu : N) (static : ranges) (bind : list chan) : klass :=
 Definition w_desc (i : N) (levels : list (list cstr)) (k : klass) : desc := mkDesc i levels [] (Some k).
 Definition w_round (o : offer) (ds : list desc) : outcome := run_round w_exec [o] [o] ds.
 
-(* C05-c: wants.ports "9000" and one inbound TCP channel *)
+(* was C05-c: wants.ports "9000" and one inbound TCP channel: the channel now gets 9001 *)
 Definition w1_o := w_offer [] 1000 w_full.
 Definition w1_k := w_class 100 [(9000, 9000)] [mkChan 1 true].
 Definition w1_d := w_desc 0 [[]] w1_k.
-Definition w1_t := mkTask w1_d [(1, 9000)] 30000 (Some 30000) [(9000, 9000); (30000, 30000)] 110 128000 false.
-Lemma w1_run : w_round w1_o [w1_d] = Done [(w1_o, [w1_t])] [] [] [] [].
+Definition w1_t := mkTask w1_d [(1, 9001)] 30000 (Some 30000) [(9000, 9001); (30000, 30000)] 110 128000 false.
+Lemma w1_run : w_round w1_o [w1_d] = Done [(w1_o, [w1_t])] [] [] [].
 Proof. vm_compute. reflexivity. Qed.
 
-(* C05-d: two tasks wanting 0.6 cpu each, 1.0 cpu offered *)
+(* was C05-d: two tasks wanting 0.6 cpu each, 1.0 cpu offered: only one is launched *)
 Definition w2_o := w_offer [] 1000 w_full.
 Definition w2_k := w_class 600 [] [].
 Definition w2_d0 := w_desc 0 [[]] w2_k.
 Definition w2_d1 := w_desc 1 [[]] w2_k.
 Definition w2_t1 := mkTask w2_d1 [] 30000 (Some 30000) [(30000, 30000)] 610 128000 false.
-Definition w2_t0 := mkTask w2_d0 [] 30001 (Some 30001) [(30001, 30001)] 610 128000 false.
-Lemma w2_run : w_round w2_o [w2_d0; w2_d1] = Done [(w2_o, [w2_t1; w2_t0])] [] [] [] [].
+Lemma w2_run : w_round w2_o [w2_d0; w2_d1] = Done [(w2_o, [w2_t1])] [] [w2_d0] [].
 Proof. vm_compute. reflexivity. Qed.
 
-(* C05-g: no port above the control cut-off *)
+(* was C05-g: no port above the control cut-off: the task does not fit, the offer is declined *)
 Definition w3_o := w_offer [] 1000 (Some [(9000, 9100)]).
 Definition w3_d := w_desc 0 [[]] (w_class 100 [] []).
-Lemma w3_run : w_round w3_o [w3_d] = Crash.
+Lemma w3_run : w_round w3_o [w3_d] = Done [(w3_o, [])] [0] [w3_d] [].
 Proof. vm_compute. reflexivity. Qed.
 
-(* C05-f: the only port goes to the channel, the control port finds no ports resource *)
+(* was C05-f: the only port goes to the channel, no control port: not launched, declined *)
 Definition w4_o := w_offer [] 1000 (Some [(9000, 9000)]).
 Definition w4_d := w_desc 0 [[]] (w_class 100 [] [mkChan 1 true]).
-Lemma w4_run : w_round w4_o [w4_d] = Done [(w4_o, [])] [] [0] [w4_d] [].
+Lemma w4_run : w_round w4_o [w4_d] = Done [(w4_o, [])] [0] [w4_d] [].
 Proof. vm_compute. reflexivity. Qed.
 
-(* C05-e: the top-level role names zone twice *)
+(* was C05-e: the top-level role names zone twice, the task role says z3, the agent is z2 *)
 Definition w5_o := w_offer [(w_zone, w_z2)] 1000 w_full.
-Definition w5_k := w_class 100 [] [].
-Definition w5_d := w_desc 0 w_levels w5_k.
-Definition w5_t := mkTask w5_d [] 30000 (Some 30000) [(30000, 30000)] 110 128000 false.
-Lemma w5_run : w_round w5_o [w5_d] = Done [(w5_o, [w5_t])] [] [] [] [].
+Definition w5_d := w_desc 0 w_levels (w_class 100 [] []).
+Lemma w5_run : w_round w5_o [w5_d] = Done [(w5_o, [])] [0] [w5_d] [].
 Proof. vm_compute. reflexivity. Qed.
 
-(* C05-h: wants exactly the offered cpu *)
+(* C05-h (kept): wants exactly the offered cpu, the TaskInfo asks for the executor's share on top *)
 Definition w6_o := w_offer [] 1000 w_full.
 Definition w6_k := w_class 1000 [] [].
 Definition w6_d := w_desc 0 [[]] w6_k.
 Definition w6_t := mkTask w6_d [] 30000 (Some 30000) [(30000, 30000)] 1010 128000 false.
-Lemma w6_run : w_round w6_o [w6_d] = Done [(w6_o, [w6_t])] [] [] [] [].
+Lemma w6_run : w_round w6_o [w6_d] = Done [(w6_o, [w6_t])] [] [] [].
 Proof. vm_compute. reflexivity. Qed.
 
 Lemma w_full_valid : pvalid w_full.
 Proof. cbn. repeat constructor; unfold rvalid; cbn; lia. Qed.
 
-(* ---- the full statements that the unchanged code does not satisfy ---- *)
-
-(* nearest definition wins, whatever the lists look like *)
-Definition st_merge_nearest : Prop :=
-  forall levels k a, levels <> [] ->
-    lookup_c a (desc_constraints levels k) = nearest a (all_levels levels k).
-
-Lemma merge_nearest_refuted : ~ st_merge_nearest.
-Proof.
-  intro H. specialize (H w_levels (Some []) w_zone).
-  destruct merge_nearest_counterexample as [A B]. rewrite A, B in H.
-  assert (X : w_levels <> []) by discriminate. specialize (H X). discriminate.
-Qed.
-
-(* a launched task's agent satisfies the nearest definition of every attribute *)
-Definition st_constraints_nearest : Prop :=
-  forall exec offers sched descs acc dec ab still und o ts t k a v,
-    run_round exec offers sched descs = Done acc dec ab still und ->
-    In (o, ts) acc -> In t ts -> d_class (t_desc t) = Some k ->
-    nearest a (d_levels (t_desc t) ++ [k_cts k]) = Some v ->
-    sat1 (o_attrs o) (mkC a v 0) = true.
-
-Lemma constraints_nearest_refuted : ~ st_constraints_nearest.
-Proof.
-  intro H.
-  specialize (H w_exec [w5_o] [w5_o] [w5_d] _ _ _ _ _ w5_o [w5_t] w5_t w5_k w_zone w_z3 w5_run
-                (or_introl eq_refl) (or_introl eq_refl) eq_refl eq_refl).
-  vm_compute in H. discriminate.
-Qed.
-
-(* static, dynamic and control ports of the tasks on one offer are pairwise distinct *)
-Definition st_ports_distinct : Prop :=
-  forall exec offers sched descs acc dec ab still und o ts,
-    run_round exec offers sched descs = Done acc dec ab still und ->
-    In (o, ts) acc -> pvalid (o_ports o) ->
-    NoDup (all_picked ts) /\
-    (forall t k p, In t ts -> d_class (t_desc t) = Some k -> inr p (k_static k) = true ->
-                   ~ In p (all_picked ts)) /\
-    (forall i j ti tj ki kj p, i <> j -> nth_error ts i = Some ti -> nth_error ts j = Some tj ->
-        d_class (t_desc ti) = Some ki -> d_class (t_desc tj) = Some kj ->
-        inr p (k_static ki) = true -> inr p (k_static kj) = false).
-
-Lemma ports_distinct_refuted : ~ st_ports_distinct.
-Proof.
-  intro H.
-  destruct (H w_exec [w1_o] [w1_o] [w1_d] _ _ _ _ _ w1_o [w1_t] w1_run (or_introl eq_refl) w_full_valid)
-    as [_ [H2 _]].
-  apply (H2 w1_t w1_k 9000 (or_introl eq_refl) eq_refl eq_refl).
-  vm_compute. left. reflexivity.
-Qed.
-
-Definition want_cpu (t : task) : N := match d_class (t_desc t) with Some k => k_cpu k | None => 0 end.
-Definition want_mem (t : task) : N := match d_class (t_desc t) with Some k => k_mem k | None => 0 end.
-
-(* what the templates of all tasks launched on one offer ask for does not exceed the offer *)
-Definition st_request_within_offer : Prop :=
-  forall exec offers sched descs acc dec ab still und o ts,
-    run_round exec offers sched descs = Done acc dec ab still und ->
-    In (o, ts) acc -> ts <> [] ->
-    exists c m, o_cpu o = Some c /\ o_mem o = Some m /\
-                sumN (map want_cpu ts) <= c /\ sumN (map want_mem ts) <= m.
-
-Lemma request_within_offer_refuted : ~ st_request_within_offer.
-Proof.
-  intro H.
-  destruct (H w_exec [w2_o] [w2_o] [w2_d0; w2_d1] _ _ _ _ _ w2_o [w2_t1; w2_t0] w2_run
-              (or_introl eq_refl)) as [c [m [Hc [_ [Hs _]]]]]; [discriminate|].
-  inversion Hc; subst c. vm_compute in Hs. apply Hs. reflexivity.
-Qed.
-
-Lemma request_within_offer_single exec offers sched descs acc dec ab still und o t :
-  run_round exec offers sched descs = Done acc dec ab still und ->
-  In (o, [t]) acc ->
-  exists c m, o_cpu o = Some c /\ o_mem o = Some m /\
-              sumN (map want_cpu [t]) <= c /\ sumN (map want_mem [t]) <= m.
-Proof.
-  intros H Hin.
-  destruct (round_task_base _ _ _ _ _ _ _ _ _ _ _ _ H Hin (or_introl eq_refl))
-    as [_ [k [Hk [[c [Hc Lc]] [[m [Hm Lm]] _]]]]].
-  exists c, m. unfold want_cpu, want_mem. cbn [map sumN fold_right]. rewrite Hk, !N.add_0_r. auto.
-Qed.
-
 (* the cpu / memory a TaskInfo asks for is covered by the offer *)
 Definition st_taskinfo_within_offer : Prop :=
-  forall exec offers sched descs acc dec ab still und o t,
-    run_round exec offers sched descs = Done acc dec ab still und ->
+  forall exec offers sched descs acc dec still und o t,
+    run_round exec offers sched descs = Done acc dec still und ->
     In (o, [t]) acc ->
     exists c m, o_cpu o = Some c /\ o_mem o = Some m /\ t_cpu t <= c /\ t_mem t <= m.
 
 Lemma taskinfo_within_offer_refuted : ~ st_taskinfo_within_offer.
 Proof.
   intro H.
-  destruct (H w_exec [w6_o] [w6_o] [w6_d] _ _ _ _ _ w6_o w6_t w6_run (or_introl eq_refl))
+  destruct (H w_exec [w6_o] [w6_o] [w6_d] _ _ _ _ w6_o w6_t w6_run (or_introl eq_refl))
     as [c [m [Hc [_ [Hs _]]]]].
   inversion Hc; subst c. vm_compute in Hs. apply Hs. reflexivity.
-Qed.
-
-(* an offer is in the DECLINE call exactly when no task was launched on it *)
-Definition st_unused_declined : Prop :=
-  forall exec offers sched descs acc dec ab still und,
-    run_round exec offers sched descs = Done acc dec ab still und ->
-    (forall o ts, In (o, ts) acc -> ts <> [] -> ~ In (o_id o) dec) /\
-    (forall o, In o offers -> ~ In (o_id o) dec ->
-       exists o' ts, In (o', ts) acc /\ o_id o' = o_id o /\ ts <> []).
-
-Lemma unused_declined_refuted : ~ st_unused_declined.
-Proof.
-  intro H.
-  destruct (H w_exec [w4_o] [w4_o] [w4_d] _ _ _ _ _ w4_run) as [_ H2].
-  destruct (H2 w4_o (or_introl eq_refl)) as [o' [ts [Hin [_ Hne]]]].
-  - intros [].
-  - destruct Hin as [Hin|[]]. inversion Hin; subst. apply Hne. reflexivity.
-Qed.
-
-Lemma unused_declined_no_abandon exec offers sched descs acc dec still und :
-  run_round exec offers sched descs = Done acc dec [] still und ->
-  (forall o ts, In (o, ts) acc -> ts <> [] -> ~ In (o_id o) dec) /\
-  (forall o, In o offers -> ~ In (o_id o) dec ->
-     exists o' ts, In (o', ts) acc /\ o_id o' = o_id o /\ ts <> []).
-Proof.
-  intro H. destruct (round_decline _ _ _ _ _ _ _ _ _ H) as [A B]. split; [exact A|].
-  intros o Ho Hd. destruct (B o Ho Hd) as [X|[]]. exact X.
-Qed.
-
-(* the handler finishes the round (does not take the core down) *)
-Definition st_round_completes : Prop :=
-  forall exec offers sched descs,
-    (forall o, In o offers -> pvalid (o_ports o)) -> run_round exec offers sched descs <> Crash.
-
-Lemma round_crash_witness : ~ st_round_completes.
-Proof.
-  intro H. apply (H w_exec [w3_o] [w3_o] [w3_d]); [|exact w3_run].
-  intros o [Ho|[]]. subst o. cbn. repeat constructor; unfold rvalid; cbn; lia.
 Qed.
 
 (* ================================================================ J. RangesFromExpression *)
